@@ -181,6 +181,41 @@ pub fn run(tier: Tier, _replay: Option<String>) -> i32 {
             c.fail("c08:independent-runs-differ", &m, json!({}));
         }
     }
+    // (5) the same tree reached through a symbolic link: the result must not depend on how the path is spelled
+    {
+        c.eval();
+        c.nontrivial_str("symlinked-workspace");
+        match Scratch::new() {
+            Err(e) => c.inconclusive(&e),
+            Ok(s) => {
+                // one perturbation, so that the run has something to repair and to prune
+                let victim = reference.keys().find(|k| class_of(k) == Some("world-module")).cloned();
+                if let Some(v) = &victim {
+                    let _ = std::fs::remove_file(s.path(v));
+                }
+                let link = std::env::temp_dir().join(format!("wm_verif_link_{}", std::process::id()));
+                let _ = std::fs::remove_file(&link);
+                if std::os::unix::fs::symlink(&s.root, &link).is_ok() {
+                    let out = std::process::Command::new(&bin).env("WOWM_VERIF_WORKSPACE", &link).env("RUST_BACKTRACE", "0").current_dir(&link).output();
+                    let _ = std::fs::remove_file(&link);
+                    match out {
+                        Ok(o) if o.status.code() == Some(0) => {
+                            let d = diff(&reference, &s.snapshot());
+                            if !(d.0.is_empty() && d.1.is_empty() && d.2.is_empty()) {
+                                c.fail("c08:symlinked-workspace-differs", &format!("run through a symbolic link to the tree (one module deleted beforehand): {}", summarize(&d)), json!({"deleted": victim}));
+                            }
+                        }
+                        Ok(o) => {
+                            c.fail("c08:symlinked-workspace-run-fails", &format!("exit {:?} when the workspace is reached through a symbolic link: {}", o.status.code(), String::from_utf8_lossy(&o.stderr).lines().rev().take(3).collect::<Vec<_>>().join(" | ")), json!({}));
+                        }
+                        Err(e) => c.inconclusive(&e.to_string()),
+                    }
+                } else {
+                    c.inconclusive("cannot create a symbolic link in the temp directory");
+                }
+            }
+        }
+    }
     // generated files universe
     let files: Vec<String> = reference.keys().filter(|k| class_of(k).is_some()).cloned().collect();
     let mut per_class: BTreeMap<&str, Vec<usize>> = BTreeMap::new();
